@@ -1,6 +1,7 @@
 package main
 
 import (
+	"time"
 	"bufio"
 	"encoding/json"
 	"flag"
@@ -56,7 +57,7 @@ var profiles = map[string]*Profile{
 		W: map[string]int{"connect": 4, "disconnect": 2, "join": 12, "custom": 60, "entity_add": 2, "tick": 1, "step": 4, "unknown": 1}},
 	"C16": {Name: "C16", MaxConns: 5, MaxSess: 2, Len: 100, StepPct: 88, SnapPct: 20,
 		W: map[string]int{"connect": 3, "disconnect": 5, "join": 12, "entity_add": 12, "entity_delete": 7, "action": 30, "asset": 18, "step": 3, "tick": 1}},
-	"C17": {Name: "C17", MaxConns: 5, MaxSess: 2, Len: 70, W: withW(map[string]int{"latency": 0, "ping_resp": 0, "receipt": 0, "dagaz": 0, "custom": 12}), StepPct: 85, SnapPct: 20},
+	"C17": {Name: "C17", MaxConns: 5, MaxSess: 2, Len: 70, W: withW(map[string]int{"latency": 0, "ping_resp": 0, "receipt": 0, "dagaz": 0, "custom": 12, "type_add": 6, "comp_add": 10, "comp_delete": 8, "subscribe": 6}), StepPct: 85, SnapPct: 20},
 	"C18": {Name: "C18", MaxConns: 4, MaxSess: 2, Len: 120, StepPct: 90, SnapPct: 2,
 		W: map[string]int{"connect": 2, "disconnect": 1, "join": 6, "latency": 12, "ping_resp": 60, "ping": 3, "entity_add": 2, "tick": 1, "step": 3}},
 }
@@ -205,6 +206,28 @@ func replay(in, out string) {
 			e = NewEnv(cfg, w, hid)
 		case 'O':
 			runOp(e, line)
+		case 'W':
+			// a wait (no operation of the model, not written to the trace): the server derives ping ids from the wall
+			// clock (uint32 of UnixNano, which wraps every 4.29 s); "W before <us>" waits until <us> microseconds before
+			// the next wrap, "W after <us>" until <us> microseconds after the next wrap, "W sleep <us>" just sleeps
+			f := strings.Fields(line)
+			if len(f) == 3 {
+				us, _ := strconv.ParseInt(f[2], 10, 64)
+				d := time.Duration(us) * time.Microsecond
+				const wrap = int64(1) << 32
+				toWrap := time.Duration(wrap - time.Now().UnixNano()%wrap)
+				switch f[1] {
+				case "before":
+					if toWrap < d+time.Millisecond {
+						toWrap += time.Duration(wrap)
+					}
+					time.Sleep(toWrap - d)
+				case "after":
+					time.Sleep(toWrap + d)
+				case "sleep":
+					time.Sleep(d)
+				}
+			}
 		case 'E':
 			e.Close()
 			e = nil
